@@ -336,6 +336,19 @@ def observe_mutate(sc, _box=None):
                 else:
                     handles.pop(op[1], None)
                     fin("none", [], None, False)
+            elif k == "h.nested":
+                m0 = handles.get(op[2])
+                if m0 is None:
+                    fin("nohandle", [], None, False)
+                else:
+                    ms = list(itertools.islice(find_matches(b.steps(op[3]), m0), op[4] + 1))
+                    m = ms[op[4]] if len(ms) > op[4] else None
+                    if m is not None and m.parent is not None:
+                        handles[op[1]] = m
+                        fin("h", [m.path_as_str], None, False)
+                    else:
+                        handles.pop(op[1], None)
+                        fin("none", [], None, False)
             elif k == "h.parent":
                 m = handles.get(op[2])
                 if m is None:
